@@ -15,7 +15,7 @@ ASSUMPTIONS = ["theorems are session level (originator announcement/frames, resp
 
 
 def correspondence(ctx):
-    return corr21.run(ctx, 300 if ctx.quick else 12000, 20 if ctx.quick else 500, 1)
+    return corr21.run(ctx, ctx.n(300, 12000), ctx.n(20, 500), 1)
 
 
 def network_case(rng):
@@ -60,7 +60,7 @@ def network_case(rng):
 
 def oracle(ctx, full):
     rng = random.Random(ctx.seed * 7907 + 1)
-    n = 120 if (ctx.quick and not full) else 4000
+    n = ctx.n(120, 4000, full)
     findings, evals, distinct, samples = [], 0, set(), []
     for _ in range(n):
         sub = random.Random(rng.getrandbits(48))
